@@ -79,7 +79,7 @@ func c07Expected(t c07Triple) (exact map[int]uint64, congr map[int]uint64) {
 }
 
 func c07Judge(t c07Triple, outs []*big.Int, res engine.Result, where string) (fw.Outcome, bool) {
-	if res.Verdict != engine.Accept {
+	if !res.AcceptedHonestly() {
 		return fw.Violate("gadget_failed:"+where, fmt.Sprintf("a=%d b=%d c=%d x=%s: %s %s", t.A, t.B, t.C, t.X, resStr(res), res.Msg)), true
 	}
 	exact, congr := c07Expected(t)
@@ -249,7 +249,7 @@ func init() {
 						}
 						got, res := gadget.EngineEval(engine.Options{Face: faceByName(c.Str("face"))}, mkFn(k), []*big.Int{bu(a), bu(cc)})
 						o.Events += events(res)
-						if res.Verdict != engine.Accept {
+						if !res.AcceptedHonestly() {
 							return fw.Violate("gadget_failed:constant_operand", fmt.Sprintf("constant %d, a=%d, c=%d: %s %s", k, a, cc, resStr(res), res.Msg))
 						}
 						w := want(k%P, a, cc)
@@ -377,7 +377,7 @@ func init() {
 						// the engine must compute the reference values ...
 						got, res := gadget.EngineEval(engine.Options{Face: engine.Native}, c07AliasGadget, in)
 						o.Events += events(res)
-						if res.Verdict != engine.Accept {
+						if !res.AcceptedHonestly() {
 							return fw.Violate("gadget_failed:alias_shapes", resStr(res))
 						}
 						for i := range want {
